@@ -235,7 +235,7 @@ func runDispatchE2E(in dispIn, late bool, workers int, work string, seq int) dis
 			case <-delivered:
 				select {
 				case <-clk.planCh:
-				case <-time.After(1200 * time.Millisecond):
+				case <-time.After(5 * time.Second): // only runs out when the report is never applied
 				}
 			case <-time.After(4 * time.Second):
 			}
